@@ -11,8 +11,8 @@ claim('C18',
       'Bounded proof, inductive step: one soxr_output call of the real soxr.c from any API state with a nondeterministic input function (short supply, end, failure at any of <= 4 calls) over the abstract engine: request <= max_ilen, consume-once-in-order (ghost sequence numbers checked inside the engine), no call after end/failure/in error state, error string set.',
       'Trusted: cbmc; abstract engine contract; frames per call <= 3 (4 thorough); datatypes/layout/engine/channels enumerated per obligation.')
 
-for pid in ['C01', 'C02', 'C04', 'C05', 'C06', 'C09', 'C10', 'C12', 'C13', 'C14', 'C16',
-            'C17', 'C19', 'C20']:
+for pid in ['C01', 'C02', 'C04', 'C05', 'C06', 'C12', 'C14', 'C16',
+            'C17', 'C19']:
     na(pid, 'check under construction in this session (breadth-first build order of DESIGN.md section 12); not yet claimed')
 
 claim('C03',
@@ -24,3 +24,16 @@ claim('C15',
 claim('C08',
       'Bounded proof with unwinding assertions over the real loops of cr.c (_soxr_process, stage_process) and soxr.c (soxr_output pull loop): termination within a bound that depends on the request only, drain after end-of-input, for any input-function behaviour and any engine supply.',
       'Trusted: cbmc; abstract stage progress contract (L3); ENV input_size > pre_post; requests <= 4 frames; the planning loops of _soxr_init (halving loop, rational search) are not encoded.')
+
+claim('C09',
+      'Bounded proof over the real soxr_create/soxr_set_io_ratio/initialise with every spec field symbolic (no NaN) over the abstract engine: NULL iff error, named out-of-range inputs rejected, env overrides applied only in range; sticky error (one call from any error state: no engine call, no input-fn call, no output); planner lemmas on the real set_dft_length / dft_stage_init / _soxr_init validation prefix (see evidence).',
+      'Trusted: cbmc; abstract engine; output rate constant per obligation (symbolic double division does not finish), channels constant per obligation (1..2); NaN fields outside the claim; "yields a working resampler" beyond safety is the other properties\' content.')
+claim('C10',
+      'Bounded proof (self-composition): real soxr_create snapshot vs real soxr_clear after ANY history over the abstract engine: every behaviour-relevant field of struct soxr and every engine-create argument equal the fresh state, nothing leaked.',
+      'Trusted: cbmc; abstract engine; static tables below the engine boundary (VR coefficient tables, FFT cache) are not covered by this check: that part of C10 is not claimed; dither seed excluded.')
+claim('C13',
+      'Bounded proof over the real engine-selection logic of soxr_create with precision/flags/SOXR_USE_SIMD* overrides symbolic and CPU detection nondeterministic: the right engine family is installed, overrides win, (de)interleavers match, soxr_engine() names the installed engine.',
+      'Partial: numerical agreement of SIMD vs portable kernels within the precision is floating-point error analysis and is NOT claimed; only selection/identity and (via C03/C15 lemmas run on the shared driver) identical length/delay logic.')
+claim('C20',
+      'Bounded proof over the real soxr_create/initialise/fatal_error/soxr_clear/soxr_delete0 with every allocation event failing or not independently (symbolic subset) and engine creation failing for any channel: no NULL dereference, error reported, no leak, every engine closed once, delete safe.',
+      'Trusted: cbmc; allocation model (typed exact-size malloc + ghost live counter); API layer only in this check: allocation sites inside the engines (cr.c, filter.c, fifo.h, vr32.c) are listed in DESIGN.md section 8 as expected defects and are not yet decided here.')
